@@ -168,4 +168,15 @@ TEXT = {
         'note': COMMON_NOTE,
         'technique': 'TLA+ relation SchedOK; histories generated by TLC (G->R), outputs of the code validated by TLC against the relation (R->T)',
     },
+    'C12': {
+        'text': 'Model checking of the lock protocol plus schedule replay: TLC checks on spec/MapLock.tla, over all interleavings '
+                'of a writer with interior points and readers under RWMutex semantics, that every query returns a whole-block '
+                'state inside its call window, that there is no deadlock and that the writer makes progress (and that an '
+                'unlocked getter breaks this). The schedules of the model are replayed on the real MapPollard by suspending '
+                'the real writer inside its critical section through build-tag guarded hooks; free-running stress under the '
+                'Go race detector covers data races; all calls are trace-validated against AtomicBlocks.',
+        'design_ref': 'DESIGN.md section 5 (C12)',
+        'note': COMMON_NOTE + ' Also trusted: the Go race detector; the sequential answers used as whole-block references.',
+        'technique': 'TLA+ model of RWMutex/writer/readers checked by TLC (safety + liveness); TLC-generated schedules replayed through hooks; race-detector stress; call log validated by TLC (R->T)',
+    },
 }
